@@ -487,3 +487,17 @@ def multi_hit_mono():
 
 
 S2["multi_hit_mono"] = multi_hit_mono
+
+
+def missing_twins():
+    """4 samples, sample 3 missing (isolated) on [10,20).  Nodes 4 (left half, 4 samples in the
+    tree) and 5 (right half, 3 samples) both sit above 2 samples for 4 units and above 3 samples
+    for 6 units: identical (tips, span) tables under different numbers of samples."""
+    return _ts(20, [(1, 0)] * 4 + [(0, 1.0), (0, 1.0), (0, 2.0)],
+               [(0, 10, 4, 0), (0, 10, 4, 1), (4, 10, 4, 2), (0, 4, 6, 2), (0, 10, 6, 3),
+                (0, 10, 6, 4), (10, 20, 5, 0), (10, 20, 5, 1), (14, 20, 5, 2), (10, 14, 6, 2),
+                (10, 14, 6, 5)],
+               [2, 12], [(0, 0), (1, 1)])
+
+
+S2["missing_twins"] = missing_twins
